@@ -28,7 +28,7 @@ def run(an: Analysis, rep):
     rep.rule("R08.4", "constant key: every leaf type, type-/sign-/NaN-exact, recursive", 9)
     from .common import purity
     # (Args.parameters / len(args) are part of the value's interface: a mapping handed out from a cache is shared mutable state of all equal values)
-    rep.run(purity, an, rep, "R08.P", ["constant_eq", "from_json", "from_code", "normalize", "parameters", "args_len"])
+    rep.run(purity, an, rep, "R08.P", ["constant_eq", "from_json", "from_code", "normalize", "parameters", "args_len", "to_code"])
     from .common import assert_guard_rule as _agrx
     rep.run(_agrx, an, rep, "R08.G", ["constant_eq", "from_json", "from_code", "normalize"])
     for fn in (r081, r082, r083, r084):
